@@ -884,8 +884,16 @@ func main() {
 		reenc(allD1[i], ctxsLeaf, &lc)
 		lc.flush()
 	})
+	var ctxRe16 []ctxT // key subsets x start in {absent,5} x ttl in {absent,5}
+	for ks := 0; ks < 4; ks++ {
+		for _, st := range []optU{{}, {true, 5}} {
+			for _, tt := range []optU{{}, {true, 5}} {
+				ctxRe16 = append(ctxRe16, ctxT{ks, st, tt})
+			}
+		}
+	}
 	if c.Thorough() {
-		// depth 2, one bound, reduced contexts would hide nothing structural: use all contexts of the small grid
+		// depth 2 re-encodings: pool with the single bound 5, the 16-context grid
 		pool := append(append([]script{}, mkLeaves([]uint64{5})...), mkDepth1(mkLeaves([]uint64{5}))...)
 		n := 6 * kidLists(len(pool))
 		nCh := (n + chunk - 1) / chunk
@@ -893,7 +901,7 @@ func main() {
 			var lc localCount
 			for idx := ci * chunk; idx < (ci+1)*chunk && idx < n; idx++ {
 				cb, code := idx/kidLists(len(pool)), idx%kidLists(len(pool))
-				reenc(mkComb(cb, kidsByCode(pool, code)), ctxs, &lc)
+				reenc(mkComb(cb, kidsByCode(pool, code)), ctxRe16, &lc)
 			}
 			lc.flush()
 		})
@@ -961,13 +969,15 @@ func main() {
 				lc.flush()
 			})
 		}
-		// depth 2 inside transactions: thorough only, pool with the single bound 5, interval grid around the bound
+		// depth 2 inside transactions: thorough only; every depth-2 script over the leaves {sig a, before 5, hereafter 5}
+		// (39,858 scripts) x 8 contexts ({} / {a}) x start {absent,5} x ttl {absent,5}. The full depth-2 space is covered on layer E.
 		if c.Thorough() {
-			pool := append(append([]script{}, mkLeaves([]uint64{5})...), mkDepth1(mkLeaves([]uint64{5}))...)
+			lv := []script{mkLeafKey(keyA), mkLeafTime(4, 5), mkLeafTime(5, 5)}
+			pool := append(append([]script{}, lv...), mkDepth1(lv)...)
 			var cx2 []ctxT
-			for ks := 0; ks < 4; ks++ {
-				for _, st := range []optU{{}, {true, 4}, {true, 5}} {
-					for _, tt := range []optU{{}, {true, 5}, {true, 6}} {
+			for ks := 0; ks < 2; ks++ {
+				for _, st := range []optU{{}, {true, 5}} {
+					for _, tt := range []optU{{}, {true, 5}} {
 						cx2 = append(cx2, ctxT{ks, st, tt})
 					}
 				}
